@@ -255,6 +255,8 @@ class Ctx:
 
     # -- finish -----------------------------------------------------------------
     def finish(self, obligations, level="proof", assumptions=None, trusted=None, explanation=""):
+        if level not in ("exploration", "fault_enumeration", "model_checking", "proof", "translation_validation", "other"):
+            self.notes.append({"level_as_written_by_engine": level}); level = "proof" if level.startswith("proof") else "other"
         ths = obligations.get("theorems", [])
         n_obl = len(ths)
         n_dis = sum(1 for t in ths if assumptions_acceptable(t))
